@@ -193,3 +193,69 @@ Theorem C15_old_formula_consistent_refuted :
          wtotal (elem_val (V_quantile a) eta) S c < wtotal (elem_val (V_quantile a) eta) S t.
 Proof. exact elem_consistent_quantile_refuted. Qed.
 Print Assumptions C15_old_formula_consistent_refuted.
+
+
+(* ======================================================================== *)
+(* ==== APPEND TO props/C15.v (after the last existing theorem) ==== *)
+(* END TO END (proofs/ConsistencyE2E.v): consistency of the elementary scores at the EXECUTABLE functionals of
+   model/Functionals.v on a rational sample S : list elt, for every real threshold eta (data values included)
+   and every real competitor c; no domain conditions. *)
+From Coq Require Import QArith Qreals.
+From MD Require Import lib.QLists model.Functionals proofs.ConsistencyE2E.
+Open Scope R_scope.
+
+Theorem C15_consistent_at_sample_mean :
+  forall (eta : R) (S : list elt) (c : R),
+       S <> [] ->
+       List.Forall (fun e : elt => (0 < ew e)%Q) S ->
+       wtotal (elem_val Scores.V_mean eta) (List.map (fun e : elt => (Q2R (ey e), Q2R (ew e))) S) (Q2R (wmean S)) <=
+       wtotal (elem_val Scores.V_mean eta) (List.map (fun e : elt => (Q2R (ey e), Q2R (ew e))) S) c.
+Proof. exact elem_consistent_at_sample_mean. Qed.
+Print Assumptions C15_consistent_at_sample_mean.
+
+Theorem C15_consistent_at_sample_expectile :
+  forall (a : Q) (eta : R) (S : list elt) (c : R),
+       (0 < a /\ a < 1)%Q ->
+       S <> [] ->
+       List.Forall (fun e : elt => (0 < ew e)%Q) S ->
+       wtotal (elem_val (Scores.V_expectile (Q2R a)) eta) (List.map (fun e : elt => (Q2R (ey e), Q2R (ew e))) S)
+         (Q2R (expectile_Q a S)) <=
+       wtotal (elem_val (Scores.V_expectile (Q2R a)) eta) (List.map (fun e : elt => (Q2R (ey e), Q2R (ew e))) S) c.
+Proof. exact elem_consistent_at_sample_expectile. Qed.
+Print Assumptions C15_consistent_at_sample_expectile.
+
+Theorem C15_consistent_between_quantiles :
+  forall (a : Q) (eta : R) (S : list elt) (t : Q) (c : R),
+       (0 < a /\ a < 1)%Q ->
+       S <> [] ->
+       List.Forall (fun e : elt => (ew e == 1)%Q) S ->
+       (qlow a S <= t)%Q ->
+       (t <= qupp a S)%Q ->
+       wtotal (elem_val_strict (V_quantile (Q2R a)) eta) (List.map (fun e : elt => (Q2R (ey e), Q2R (ew e))) S) (Q2R t) <=
+       wtotal (elem_val_strict (V_quantile (Q2R a)) eta) (List.map (fun e : elt => (Q2R (ey e), Q2R (ew e))) S) c.
+Proof. exact elem_consistent_between_quantiles. Qed.
+Print Assumptions C15_consistent_between_quantiles.
+
+Theorem C15_consistent_between_quantiles_unweighted :
+  forall (a : Q) (eta : R) (S : list elt) (t : Q) (c : R),
+       (0 < a /\ a < 1)%Q ->
+       S <> [] ->
+       (qlow a S <= t)%Q ->
+       (t <= qupp a S)%Q ->
+       wtotal (elem_val_strict (V_quantile (Q2R a)) eta) (List.map (fun e : elt => (Q2R (ey e), 1)) S) (Q2R t) <=
+       wtotal (elem_val_strict (V_quantile (Q2R a)) eta) (List.map (fun e : elt => (Q2R (ey e), 1)) S) c.
+Proof. exact elem_consistent_between_quantiles_unweighted. Qed.
+Print Assumptions C15_consistent_between_quantiles_unweighted.
+
+(* the median functional (level 1/2 as the real literal the generated code uses) *)
+Theorem C15_consistent_at_median :
+  forall (eta : R) (S : list elt) (t : Q) (c : R),
+       S <> [] ->
+       List.Forall (fun e : elt => (ew e == 1)%Q) S ->
+       (qlow (1 # 2) S <= t)%Q ->
+       (t <= qupp (1 # 2) S)%Q ->
+       wtotal (elem_val_strict (V_quantile (1 / 2)) eta) (List.map (fun e : elt => (Q2R (ey e), Q2R (ew e))) S) (Q2R t) <=
+       wtotal (elem_val_strict (V_quantile (1 / 2)) eta) (List.map (fun e : elt => (Q2R (ey e), Q2R (ew e))) S) c.
+Proof. exact elem_consistent_at_median. Qed.
+Print Assumptions C15_consistent_at_median.
+
